@@ -1038,6 +1038,40 @@ func famSamePayload(c *hx.Ctx) {
 	}
 }
 
+// F2d: a persistent session goes offline with 2..4 messages left in its temporary queue (retained replays and QoS 0
+// publishes it never dequeued) and is resumed, by a reconnect or by a takeover: the new connection must not get them
+func famResumeLeftover(c *hx.Ctx) {
+	x := hxs("x")
+	k := 0
+	for left := 2; left <= 4; left++ {
+		for _, takeover := range []bool{false, true} {
+			for v := 0; v < 3; v++ {
+				k++
+				var ops []string
+				for i := 0; i < left-1; i++ {
+					ops = append(ops, fmt.Sprintf("pub 9 %s,%s,%d,1", hxs(nameU[i]), payload(), (i+v)%3))
+				}
+				ops = append(ops, "setup 1 "+x+" 0 0", fmt.Sprintf("sub 1 %s,%d", hxs("#"), v), // left-1 replays
+					fmt.Sprintf("pub 9 %s,%s,0,0", hxs("b/b"), payload()), // one live QoS 0 message
+					fmt.Sprintf("pub 9 %s,%s,1,0", hxs("b/b"), payload())) // and one for the stored queue, which is kept
+				if v == 1 {
+					ops = append(ops, "deq 1") // one of them is taken before the connection goes away
+				}
+				if v == 2 {
+					ops = append(ops, fmt.Sprintf("pub 9 %s,-,0,1", hxs(nameU[0]))) // the retained message is cleared meanwhile
+				}
+				if takeover {
+					ops = append(ops, "setup 2 "+x+" 0 0", "finish")
+				} else {
+					ops = append(ops, "term 1", "closed 1", "setup 2 "+x+" 0 0")
+				}
+				ops = append(ops, "deq 2", "deq 2", "deq 2", fmt.Sprintf("sub 2 %s,1", hxs("a")), "deq 2", "deq 2")
+				runHist(c, hist{cap: 6, ops: ops}, "resumeleftover")
+			}
+		}
+	}
+}
+
 // F2b: many retained topics (more than any plausible replay limit), replayed by one- and multi-level wildcards
 func famManyRetained(c *hx.Ctx) {
 	for v := 0; v < 3; v++ {
@@ -1313,6 +1347,7 @@ func runMB(c *hx.Ctx) {
 	famSizes(c)
 	famRetained(c)
 	famSamePayload(c)
+	famResumeLeftover(c)
 	famManyRetained(c)
 	if c.Thorough() {
 		famExhaustive(c, 4)
